@@ -11,9 +11,9 @@ COQ_IMPORTS = ['C10_Model']
 GENERATORS = ['gen_flags']
 RULE = ('files rendered from abstract records: 1-4 records, header fields with continuation lines and sub-fields, 0-6 features, '
         'location expressions over n | a..b | <a..b | a..>b | a.b | a^b | complement | join | order to depth 4 wrapped over lines at '
-        'random commas, qualifiers quoted (also containing "=", multi-line), numeric, unquoted words and flags; ORIGIN in 6x10 '
+        'commas and at arbitrary positions (pieces of any sizes), repeated qualifier keys, repeated header fields and sub-fields of any field, records without ORIGIN, features on both strands (error class), qualifiers quoted (also containing "=", multi-line), numeric, unquoted words and flags; ORIGIN in 6x10 '
         'blocks; every case is read with read, iter_ and read_fts under a random exclude tuple; 8% of the cases are mutated raw '
-        'texts (outside the domain, compared on raises/does not raise only); non-trivial = in-domain case with a compound or partial '
+        'texts (outside the theorems, compared exactly: same value or both raise); non-trivial = in-domain case with a compound or partial '
         'location, a wrapped location, a multi-line qualifier, a flag, several records or a non-empty exclude; plus a history stream '
         '(about 300 histories in the quick tier): several read / iter_ / read_fts calls in one process on the same and on colliding files - the '
         'same location text bare and inside complement()/join() in both orders, the same file under different exclude tuples in both '
@@ -30,8 +30,8 @@ TRUSTED = ['CPython str methods used by the reader (strip, split, startswith, in
            '(read, iter_, read_fts) is inside the comparison but not modelled',
            'tools/props/c10.py render_gb == C10_Model.render_gb (checked per case by length and a polynomial hash)']
 ASSUMPTIONS = ['Python str restricted to Latin-1 code points; domain texts are printable ASCII',
-               'domain = wf_C10: files rendered by render_gb from well-formed abstract records; one strand per feature '
-               '(LocationTuple rejects mixed strands), distinct qualifier keys per feature, multi-line quoted values without blanks, '
+               'domain = wf_C10: files rendered by render_gb from well-formed abstract records (plus the two error classes of C10_read_errors); '
+               'multi-line quoted values without blanks, '
                "feature keys not starting with 'origin', no key named like a mapping method (open finding F20)"]
 NO_SHRINK = False
 MODELLED_FUNCS = {'sugar/_io/genbank.py': ['_split_toplevel', '_parse_locs', '_parse_single_loc', 'read_fts_genbank', 'iter_genbank'],
@@ -226,7 +226,7 @@ def _ft(ft):
 def _attr(a):
     """header metadata: [[key, str | nested], ...] in the order of the Attr"""
     from sugar.core.meta import Attr
-    return [[k, _attr(v) if isinstance(v, Attr) else v] for k, v in a.items()]
+    return [[k, _attr(a[k]) if isinstance(a[k], Attr) else a[k]] for k in a]      # not .items(): a key may shadow it (F20)
 
 
 def _seq(s):
@@ -290,11 +290,6 @@ def impl(case):
                     r = [_ft(f) for f in sugar.read_fts(target(), 'genbank', exclude=ex)]
             except Exception as e:          # each entry point separately: [read, iter_, read_fts]
                 r = canon_exc(e)
-                if api == 'iter' and via == 'zip' and type(e).__name__ == 'FileNotFoundError':
-                    # PENDING FIX iter_archive (sugar/_io/main.py, outside genbank.py): iter_ on an archive is a lazy generator that
-                    # runs after the temporary unpack directory is gone; the read() result stands in so that the case stays usable
-                    r = res[0]
-                    flags.append('iter_ via archive raises FileNotFoundError (pending fix iter_archive)')
             res.append(r)
         return res, flags
     res, flags = _with_transport(via, text, run)
@@ -308,6 +303,20 @@ def _raised(x):
     return isinstance(x, dict) and 'e' in x
 
 
+def _same_results(got, exp):
+    """equal values; an expected ValueError (LocationTuple: both strands) is compared by class, an expected AssertionError (it comes
+    from an assert statement in the reader: the property is silent about the class) only as 'raises'"""
+    if len(got) != len(exp):
+        return False
+    for g, x in zip(got, exp):
+        if _raised(x):
+            if not _raised(g) or (x['e'] != 'AssertionError' and g != x):
+                return False
+        elif g != x:
+            return False
+    return True
+
+
 def agree(case, iv, mv):
     if _raised(iv) or not isinstance(mv, dict):
         return False
@@ -319,7 +328,7 @@ def agree(case, iv, mv):
         return all((_raised(i) and _raised(m)) or (not _raised(i) and not _raised(m) and i == m) for i, m in zip(iv['res'], mv['res']))
     if not mv['wf']:
         return [_raised(x) for x in iv['res']] == [_raised(x) for x in mv['res']]
-    return mv['viewok'] is True and iv['res'] == mv['res']
+    return mv['viewok'] is True and _same_results(iv['res'], mv['res'])
 
 
 # ----------------------------------------------------------------------------- property oracle (first principles)
@@ -356,6 +365,23 @@ def exp_hdr(r):
     d.pop('reference', None)
     ser = lambda x: [[k, ser(v)] for k, v in x.items()] if isinstance(x, dict) else x
     return ser(d)
+
+
+def expected_error(case):
+    """first principles: a feature with locations on both strands has no representation (ValueError of LocationTuple) and stops the
+    reader in its record; a record without ORIGIN that has features stops it too (class not specified: None); both only when the
+    feature table is read at all"""
+    if 'fts' in case['excl']:
+        return False
+    for r in case['recs']:
+        if not r.get('origin', True):
+            if r['fts']:
+                return None
+            continue
+        for f in r['fts']:
+            if len({l[2] for l in sem(f['loc'])}) > 1:
+                return 'ValueError'
+    return False
 
 
 def expected(case):
@@ -399,6 +425,14 @@ def spec(case, iv):
         return None
     if _raised(iv):
         return 'driver raised %s' % iv['e']
+    err = expected_error(case)
+    if err is not False:
+        for name, got in zip(('read', 'iter_', 'read_fts'), iv['res']):
+            if not _raised(got):
+                return '%s returned a result, expected %s' % (name, err or 'an exception')
+            if err and got['e'] != err:
+                return '%s raised %s, expected %s' % (name, got['e'], err)
+        return None
     exp_recs, exp_fts = expected(case)
     rd, it, ft = iv['res']
     for name, got, exp in (('read', rd, exp_recs), ('iter_', it, exp_recs), ('read_fts', ft, exp_fts)):
@@ -464,7 +498,7 @@ def g_qual(rng, used):
     while True:
         k = rng.choice(['note', 'product', 'gene', 'db_xref', 'codon_start', 'transl_table', 'translation', 'protein_id', 'organism',
                         'mol_type', 'rpt_type', 'number', 'locus_tag', 'x1', 'EC_number'] + (['items', 'misc'] if rng.random() < 0.004 else []))
-        if k not in used or rng.random() < 0.004:
+        if k not in used or rng.random() < 0.12:        # repeated keys: the dict keeps the first position and the last value
             break
     used.add(k)
     r = rng.random()
@@ -482,14 +516,39 @@ def g_qual(rng, used):
     return ['t', k, [txt]]
 
 
+def g_wrap(rng, text):
+    """chunk sizes: after commas (what GenBank files do), at arbitrary positions (inside numbers, '..', keywords, before ')'),
+    single characters, sizes past the end (no break) and 0 (stops the wrapping)"""
+    k = rng.random()
+    if k < 0.25:
+        return []
+    if k < 0.6:
+        sizes, cur = [], 0
+        for ch in text:
+            cur += 1
+            if ch == ',' and rng.random() < 0.4:
+                sizes.append(cur)
+                cur = 0
+        return sizes
+    if k < 0.9:
+        sizes, left = [], len(text)
+        while left > 0 and len(sizes) < 12:
+            n = rng.choice([1, 1, 2, 3, 5, 8, 13, 37, 58])
+            sizes.append(n)
+            left -= n
+        if rng.random() < 0.1:
+            sizes.insert(rng.randrange(len(sizes) + 1), 0)
+        return sizes
+    return [1] * rng.randint(1, min(len(text), 20))
+
+
 def g_feat(rng):
     bad = rng.random() < 0.006
     parity = 1 if rng.random() < 0.35 else 0
     loc = g_loc(rng, parity, rng.choice([0, 0, 1, 1, 2, 3, 4]), bad)
-    if rng.random() < 0.008:       # mixed strands inside one feature: LocationTuple raises ValueError, outside the domain
+    if rng.random() < 0.012:       # both strands inside one feature: LocationTuple raises ValueError (error class proved: C10_read_errors)
         loc = ['j', [loc, g_loc(rng, 1 - parity, 1, False)]]
-    ncomma = lprint(loc).count(',')
-    wrap = [rng.random() < 0.4 for _ in range(ncomma)] if rng.random() < 0.7 else []
+    wrap = g_wrap(rng, lprint(loc))
     used = set()
     quals = []
     for _ in range(rng.choice([0, 1, 2, 3, 3, 4, 6])):
@@ -532,8 +591,22 @@ def g_rec(rng, i):
                     'v': [g_text(rng, 4), '//' if rng.random() < 0.03 else 'x'], 'subs': []})
     if rng.random() < 0.15:
         rng.shuffle(hdr)
+    if rng.random() < 0.12:       # repeated field names (the later value replaces the earlier at its position), sub-fields anywhere
+        h = json.loads(json.dumps(rng.choice(hdr)))
+        h['v'] = [g_text(rng, 2) for _ in range(rng.randint(0, 2))] if h['k'] != 'ACCESSION' else ['ZZ9 ' + acc]
+        hdr.insert(rng.randrange(len(hdr) + 1), h)
+    if rng.random() < 0.1:
+        rng.choice(hdr)['subs'].append([rng.choice(['ID', 'ORGANISM', 'NOTE', 'AUTHORS', 'X']), [g_text(rng, 3) for _ in range(rng.randint(0, 2))]])
+    for h in hdr:
+        if h['k'] == 'ACCESSION':
+            h['subs'] = []
     fts = [g_feat(rng) for _ in range(rng.choice([0, 1, 1, 2, 2, 3, 4, 6]))]
-    return {'hdr': hdr, 'fts': fts, 'seq': seq, 'blank': rng.random() < 0.2}
+    rec = {'hdr': hdr, 'fts': fts, 'seq': seq, 'blank': rng.random() < 0.2}
+    if rng.random() < 0.06:       # no ORIGIN line (CONTIG-style records): with a feature pending at '//' the reader stops with an error
+        rec['origin'] = False
+        if rng.random() < 0.6:
+            rec['fts'] = []
+    return rec
 
 
 def g_excl(rng):
@@ -587,7 +660,7 @@ def gen_cases(rng, tier):
         for w in wrappers:
             e = w(lf)
             cases.append({'excl': [], 'recs': [{'hdr': [{'k': 'ACCESSION', 'v': ['A1'], 'subs': []}],
-                                                'fts': [{'key': 'CDS', 'loc': e, 'wrap': [True] * lprint(e).count(','), 'quals': []}],
+                                                'fts': [{'key': 'CDS', 'loc': e, 'wrap': [True] * lprint(e).count(',') if len(cases) % 2 else [1] * 40, 'quals': []}],
                                                 'seq': 'acgt', 'blank': False}]})
     for i in range(n):
         recs = [g_rec(rng, j) for j in range(rng.choice([1, 1, 1, 1, 2, 2, 3, 4] if tier == 'thorough' else [1, 1, 1, 2, 2, 3]))]
@@ -627,8 +700,20 @@ def nontrivial(case, iv):
                     marks.add({'c': 'complement', 'j': 'join', 'o': 'order', 'd': 'n.m', 'b': 'n^m'}[e[0]])
                 if (e[0] == 'p' and (e[1] or e[2])) or (e[0] == 'r' and (e[1] or e[3])):
                     marks.add('partial')
-            if any(f['wrap']):
+            if len(wrap_at(lprint(f['loc']), wrap_sizes(f))) > 1:
                 marks.add('wrapped-location')
+            ks = [q[1] for q in f['quals'] if q[0] != 'f']
+            if len(ks) != len(set(ks)):
+                marks.add('repeated-qualifier-key')
+        if not r.get('origin', True):
+            marks.add('no-origin')
+        if any(len({l[2] for l in sem(f['loc'])}) > 1 for f in r['fts'] if all(x[0] in 'prdbcjo' for x in _walk(f['loc']))):
+            marks.add('both-strands')
+        if len({h['k'] for h in r['hdr']}) != len(r['hdr']):
+            marks.add('repeated-header-field')
+        for _f in ():
+            if False:
+                pass
             for q in f['quals']:
                 if q[0] == 't' and len(q[2]) > 1:
                     marks.add('multi-line-qualifier')
@@ -788,7 +873,7 @@ def agree(case, iv, mv):
             if _raised(i['first']) != _raised(exp):
                 return False
             continue
-        if m['viewok'] is not True or i['first'] != exp or i['last'] != exp:
+        if m['viewok'] is not True or not _same_results([i['first'], i['last']], [exp, exp]):
             return False
     return True
 
@@ -799,7 +884,13 @@ def spec(case, iv):
     if _raised(iv):
         return 'driver raised %s' % iv['e']
     for n, (st, i) in enumerate(zip(case['steps'], iv['steps'])):
-        exp_recs, exp_fts = expected({'excl': st['excl'], 'recs': case['files'][st['f']]})
+        sub = {'excl': st['excl'], 'recs': case['files'][st['f']]}
+        err = expected_error(sub)
+        if err is not False:
+            if not _raised(i['first']) or (err and i['first']['e'] != err):
+                return 'step %d (%s file %d exclude=%s): got %s, expected %s' % (n, st['api'], st['f'], st['excl'], json.dumps(i['first'])[:100], err or 'an exception')
+            continue
+        exp_recs, exp_fts = expected(sub)
         exp = exp_fts if st['api'] == 'fts' else exp_recs
         for when in ('first', 'last'):
             got = i[when]
@@ -1001,42 +1092,55 @@ def gen_cases(rng, tier):
 
 LEVEL_TEXT = ('Machine-checked Coq theorems about the Gallina model of sugar/_io/genbank.py (with Location/LocationTuple/Feature construction). '
               'C10_read_render (general, unbounded): for every list of well-formed abstract records and every exclude tuple, the reader applied '
-              'to the rendered GenBank text returns exactly the specification view, and read_fts returns the concatenated features. '
+              'to the rendered GenBank text returns exactly the specification view (ids, residues, header fields as record metadata, features), '
+              'and read_fts returns the concatenated features. '
               'C10_view_spec spells the view out clause by clause (one record per record in order, id = first word of ACCESSION, residues '
-              'upper-cased, one feature per table entry with key as type, qualifiers, seqid); C10_parse_print_loc/C10_single_loc_spec/'
-              'C10_loc_sem/C10_feature_locs/C10_sort_locs give the INSDC location semantics (n, a..b, <, >, a.b, a^b, complement, join, order, '
-              'any nesting; 0-based half-open, strand flip, defects from the regenerated Defect values; ordered along the strand); '
-              'C10_wrapped_loc/C10_split_toplevel cover wrapping and the nesting-aware comma split; C10_exclude_exact says exclude removes '
-              'exactly what it names; C10_read_fts_agrees ties read_fts to read/iter_. The tie of the model to the Python code (and the '
-              'read/iter_/read_fts dispatch in sugar/_io/main.py) is differential testing on rendered and mutated files on every run.')
-LEVEL_NOTE = ('All 13 theorems are closed under the global context. Proved for all inputs: C10_read_render, C10_view_spec, C10_exclude_exact, '
+              'upper-cased, header metadata, one feature per table entry with key as type, qualifier dict, seqid; a record without ORIGIN has '
+              'neither residues nor a feature list); C10_quals_dict characterises the qualifier dict completely, also for repeated keys (value of '
+              'the last line with that key, keys in order of first use, flags collected under misc); C10_header_attrs the header metadata '
+              '(continuation lines, LOCUS, nested sub-fields, REFERENCE dropped, id = first word of the accession entry, VERSION never used); '
+              'C10_parse_print_loc/C10_single_loc_spec/C10_loc_sem/C10_feature_locs/C10_sort_locs give the INSDC location semantics (n, a..b, <, >, '
+              'a.b, a^b, complement, join, order, any nesting; 0-based half-open, strand flip, defects from the regenerated Defect values; ordered '
+              'along the strand); C10_parse_total: the location parser is total on arbitrary text (non-empty result, ValueError or IndexError; '
+              'the fuel of the model never runs out); '
+              'C10_wrapped_loc/C10_split_toplevel cover wrapping at any break point and the nesting-aware comma split; C10_feature_table the whole '
+              'feature-table entry (key line, wrapped location, qualifiers of every kind) from any reader state; C10_exclude_exact says exclude '
+              'removes exactly what it names and that other names have no effect; C10_read_fts_agrees ties read_fts to read/iter_. Outside the '
+              'one-strand / ORIGIN domain the behaviour is proved as it is: C10_read_errors / C10_err_class_spec (the first record that is not '
+              'well-formed has a feature on both strands: ValueError from that record; or it has features but no ORIGIN line: AssertionError at //; '
+              'with fts excluded both kinds of record are inside the domain of C10_read_render and read normally). The tie of the model to the '
+              'Python code (and the read/iter_/read_fts dispatch in sugar/_io/main.py) is differential testing on rendered and mutated files on every run.')
+LEVEL_NOTE = ('All 18 theorems are closed under the global context. Proved for all inputs: C10_read_render, C10_view_spec, C10_exclude_exact, '
               'C10_read_fts_agrees, C10_parse_print_loc, C10_single_loc_spec, C10_loc_sem, C10_split_toplevel, C10_feature_locs, C10_sort_locs, '
-              'C10_wrapped_loc, C10_feature_table_locs_partial (an intermediate piece, subsumed), C10_read_render_box_partial (finite box, kept '
-              'as a regression anchor, subsumed). Tested only (correspondence): that sugar.read / iter_ / read_fts behave as the modelled '
-              'iter_genbank / read_fts_genbank (incl. the dispatch and BioBasket/FeatureList wrapping), and that the Python renderer equals the '
-              'Coq renderer (length + hash per case). wf_C10 contains two checked side conditions that are implied by its character classes '
+              'C10_wrapped_loc, C10_feature_table (replaces the location-only C10_feature_table_locs_partial), C10_quals_dict, C10_header_attrs, '
+              'C10_parse_total, C10_read_errors, C10_err_class_spec; C10_read_render_box (finite box by computation, kept as a regression anchor, '
+              'subsumed by C10_read_render; formerly named ..._box_partial). Tested only (correspondence): that sugar.read / iter_ / read_fts behave '
+              'as the modelled iter_genbank / read_fts_genbank (incl. the dispatch and BioBasket/FeatureList wrapping), and that the Python renderer '
+              'equals the Coq renderer (length + hash per case). wf_C10 contains two checked side conditions that are implied by its character classes '
               'but kept as booleans instead of being proved: no rendered line contains a newline, and ORIGIN line numbers are digit strings of '
               'at most 9 characters (fewer than 10^9 residues). Numbers in locations and numeric qualifiers are the digit strings of the file; '
               'their value is the Horner value dval (int() of a digit string is proved equal to it). Domain after round 7: qualifier keys may '
               'repeat (dict semantics: first position, last value - part of the view), header fields are observables (record metadata '
-              'meta._genbank with nested Attr for sub-fields, REFERENCE dropped), locations are wrapped at ANY break point (pieces of any '
-              'sizes), records without an ORIGIN line are inside when they have no feature or fts is excluded (no residues, no feature list). '
-              'Remaining restrictions: one strand per '
-              'feature (LocationTuple rejects mixed strands with ValueError, proved), multi-line quoted values are joined without a separator '
-              '(right for /translation) and contain no blanks, a FEATURES line is required for '
-              'ORIGIN to be recognised, feature keys of at most 15 characters not starting with "origin", keys named like mapping methods '
-              'excluded (F20). The defect exclude_fts found by this check is fixed in /repo (da56cff) and in the domain. '
+              'meta._genbank with nested Attr for sub-fields, REFERENCE dropped; repeated field names and sub-fields of any field are generated), '
+              'locations are wrapped at ANY break point (pieces of any sizes, also inside numbers, ".." and keywords), records without an ORIGIN '
+              'line are inside when they have no feature or fts is excluded (no residues, no feature list), features on both strands are inside '
+              'when fts is excluded (the table is not parsed) and are an error class otherwise (ValueError compared by class; the AssertionError '
+              'of the no-ORIGIN case comes from an assert statement, only "raises" is compared). Python recursion depth (about 1000 nested '
+              'join/complement) is not modelled. Remaining restrictions: multi-line quoted values are joined without a separator '
+              '(right for /translation) and contain no blanks; quoted values contain no double quote; a FEATURES line is required for '
+              'ORIGIN to be recognised (without it the residues are silently dropped and the ORIGIN lines become header sub-fields; modelled, compared '
+              'exactly on mutated files, not in the theorems); feature keys of at most 15 characters not starting with "origin", keys named like mapping methods '
+              'excluded (F20). Mutated raw files (8% of the random stream) are outside every theorem but are compared EXACTLY with the model since '
+              'round 7 (same value, or both raise), because the model follows the reader line by line on any Latin-1 text. '
+              'The defect exclude_fts found by this check is fixed in /repo (da56cff) and in the domain. '
               'Statement coverage of the modelled functions in the quick tier: genbank.py _split_toplevel/_parse_locs/_parse_single_loc/'
               'read_fts_genbank 100%, iter_genbank 124/125 (line 236 "assert False" is unreachable: parse is always one of three states); '
               'fts.py Location.__init__ 100%, LocationTuple.__new__ 16/26 (lines 165-178 unreachable from the reader: start/stop keyword '
-              'form, locs None, empty list - _parse_locs always returns at least one Location -, non-Location items), Feature.__init__ 6/7 '
+              'form, locs None, empty list - _parse_locs always returns at least one Location (C10_parse_total) -, non-Location items), Feature.__init__ 6/7 '
               '(line 283 meta None: the reader always passes meta). Trusted: Coq kernel/vm_compute, tools/gens/flags.py, the harness, '
               'CPython str methods, io.StringIO. The model uses primitive Uint63 only in the text hash of the harness entry point; no theorem '
               'depends on it. State independence (caches with incomplete keys, shared Location/Feature objects, effects of one call on another) is '
               'tested, not proved: the model is pure, and the history stream (corpus/C10/a_histories.json + ~250 generated histories per quick '
               'run) compares every result of several calls in one process with it, right after the call and again after all later calls. The transports of sugar/_io/main.py:_resolve_fname (file name, glob, zip, gzip) and the BioBasket construction in read() are inside '
-              'the comparison (tested, not modelled). Pending finding iter_archive (outside genbank.py): iter_() on a zip/tar archive raises '
-              'FileNotFoundError because its generator runs after the temporary unpack directory is removed (patch '
-              'build/pending_fixes/C10_iter_archive.diff); until it is fixed the driver lets the read() result stand in for iter_ on that one '
-              'transport and counts the occurrences in the evidence histogram.')
-TECHNIQUE = 'Coq proof (reader . render = view, for all well-formed record lists) + executable Gallina model tied to sugar by differential testing'
+              'the comparison (tested, not modelled). The finding iter_archive (iter_ on a zip archive) is fixed in /repo (1ce184b); the stand-in in the driver is removed.')
+TECHNIQUE = 'Coq proof (reader . render = view, for all well-formed record lists; error classes outside the one-strand / ORIGIN domain; parser total) + executable Gallina model tied to sugar by differential testing'
